@@ -789,7 +789,9 @@ where
     Infallible: From<<Target as OctetsBuilder>::AppendError>
 {
     pub fn from_target(mut target: Target) -> Result<Self, ShortBuf> {
-        //target.truncate(0);
+        // The setters and finish() address the message by fixed offsets
+        // from the start of the target.
+        target.truncate(0);
         let mut h = Header::<&[u8]>::new();
         h.set_length(29);
         h.set_type(MsgType::Open);
